@@ -80,7 +80,7 @@ Compute ==
              /\ res' = PolyRec(<<first, b, c, d>>, o, e)
      \/ /\ task = "penta"
         /\ \E k \in 0..(Len(first) - 1), rev \in BOOLEAN, o \in Offsets, e \in 0..Len(Embeds) :
-             LET P == IF rev THEN Rotate(Reverse(first), k) ELSE Rotate(first, k) IN
+             LET P == IF rev THEN Rotate(RevSeq(first), k) ELSE Rotate(first, k) IN
              /\ Area2(<<P[1], P[2], P[3]>>) # 0
              /\ res' = PolyRec(P, o, e)
      \/ /\ task = "eq"           \* all orderings of the vertex set of a simple quadrilateral against the original
@@ -116,7 +116,7 @@ IsPoly == Done /\ res.t = "poly"
 \* measures do not depend on the start or direction of the vertex cycle, nor on a lattice translation (up to the shift)
 CycleInvariantMeasures == IsPoly =>
    \A k \in 0..(Len(res.poly) - 1) : \A rev \in BOOLEAN :
-      LET P == IF rev THEN Rotate(Reverse(res.poly), k) ELSE Rotate(res.poly, k) IN
+      LET P == IF rev THEN Rotate(RevSeq(res.poly), k) ELSE Rotate(res.poly, k) IN
       /\ Abs(Area2(P)) = res.area2 /\ Primitive(Centroid(P)) = res.centroid
 TranslationCovariant == IsPoly =>
    LET o == <<2, 5>> P == Shift(res.poly, o) c == res.centroid c2 == Primitive(Centroid(P)) IN
